@@ -130,6 +130,28 @@ func runCheck(eng *Engine, o checkOpts, t0 time.Time) int {
 			}
 			rs = keep
 		}
+		// step clauses tagged [label@Cxx] are reported under Cxx only; a property
+		// listed under `stepproperty` sees nothing else of the contract
+		for _, r := range rs {
+			var keep []*Obligation
+			for _, ob := range r.Obls {
+				tag := ""
+				if i := strings.Index(ob.Name, "@C"); i >= 0 && i+4 <= len(ob.Name) && (ob.Kind == "step" || ob.Kind == "inv-init" || ob.Kind == "inv-step") {
+					tag = ob.Name[i+1 : i+4]
+				}
+				switch {
+				case tag != "":
+					if tag == o.prop {
+						keep = append(keep, ob)
+					}
+				case contains(c.StepProps, o.prop):
+					// not a tagged step: belongs to the contract's own property
+				default:
+					keep = append(keep, ob)
+				}
+			}
+			r.Obls = keep
+		}
 		for _, r := range rs {
 			if r.Unsupported != "" {
 				unsupported = append(unsupported, fmt.Sprintf("%s%s: %s", c.Name, r.Case, r.Unsupported))
